@@ -64,6 +64,9 @@ def run(path):
         json.dump(specs2, f)
     env = dict(os.environ)
     env["VERIF_REPO_PATH"] = ws.REPO
+    if prop == "C03":
+        # compile-only records are rebuilt as a 2024-edition crate (the stricter of the two editions the check uses)
+        env.setdefault("VERIF_EDITION", "2024")
     plan = "macro" if any((s.get("flags") or {}).get("via_macro") for s in specs2) else "replay"
     p = subprocess.run([ws.tool("genner"), "one", "--spec", sf, "--out", out, "--plan", plan, "--crates", "1"], env=env, stdout=subprocess.PIPE, stderr=subprocess.PIPE, text=True)
     if p.returncode != 0:
